@@ -553,6 +553,7 @@ type Scope struct {
 	Inst    string   `json:"inst"`
 	Keys    []Item   `json:"keys"`   // Kind+ID used
 	Hashes  []Item   `json:"hashes"` // Hash / Hash64 / Body used (Body = the content that hash stands for)
+	LHashes int      `json:"lhashes"` // the local side uses the first LHashes of them
 	Mods    []uint64 `json:"mods"`
 	Lasts   []uint64 `json:"lasts"`
 	Salt    uint64   `json:"salt"`
@@ -560,7 +561,7 @@ type Scope struct {
 }
 
 func (sc *Scope) total() uint64 {
-	lb := uint64(1 + len(sc.Hashes))
+	lb := uint64(1 + sc.LHashes)
 	rb := uint64(1 + len(sc.Hashes)*len(sc.Mods))
 	t := uint64(len(sc.Lasts))
 	for range sc.Keys {
@@ -587,7 +588,7 @@ const localMod = 2
 func (sc *Scope) decode(idx uint64) (local, remote []Item, last uint64) {
 	x := idx
 	nh, nm := uint64(len(sc.Hashes)), uint64(len(sc.Mods))
-	lb, rb := 1+nh, 1+nh*nm
+	lb, rb := 1+uint64(sc.LHashes), 1+nh*nm
 	for _, k := range sc.Keys {
 		d := x % lb
 		x /= lb
@@ -669,22 +670,29 @@ func scopes(tier string, seed uint64) []Scope {
 	aclHashes := []Item{{Hash: "0102", Body: 1}, {Hash: "0103", Body: 2}}
 	cfgKeys := []Item{k("exported-services", "z"), k("service-defaults", "a"), k("service-defaults", "ab"), k("service-resolver", "a")}
 	cfgHashes := []Item{{Hash64: 0, Body: 1}, {Hash64: 5, Body: 1}, {Hash64: 6, Body: 2}}
+	_ = cfgHashes
 	fedKeys := []Item{k("", "dc1"), k("", "dc10"), k("", "dc2"), k("", "DC3"), k("", "eu")}
 	mods, lasts := []uint64{1, 3}, []uint64{0, 2, 3}
 	var out []Scope
+	// quick: the local side takes one hash (hash equality is symmetric, so nothing is lost for the ACL
+	// types), config entries two of three; thorough: the full product
+	aclLH, cfgLH := 1, 2
+	if tier == "thorough" {
+		aclLH = 2
+		fedKeys = append(fedKeys, k("", "z"))
+	}
 	for _, inst := range []string{"token", "policy", "role"} {
-		keys := aclKeys
-		if tier == "quick" && inst != "policy" {
-			keys = aclKeys[:3] // quick: the full 4-key scope for one ACL type, 3 keys for the other two
-		}
-		out = append(out, Scope{Inst: inst, Keys: keys, Hashes: aclHashes, Mods: mods, Lasts: lasts, Salt: seed, IdsOnly: true})
+		out = append(out, Scope{Inst: inst, Keys: aclKeys, Hashes: aclHashes, LHashes: aclLH, Mods: mods, Lasts: lasts, Salt: seed, IdsOnly: true})
 	}
 	ck := cfgKeys
 	if tier == "quick" {
 		ck = cfgKeys[:3]
 	}
-	out = append(out, Scope{Inst: "config", Keys: ck, Hashes: cfgHashes, Mods: mods, Lasts: lasts, Salt: seed})
-	out = append(out, Scope{Inst: "fed", Keys: fedKeys, Hashes: []Item{{Body: 1}}, Mods: mods, Lasts: lasts, Salt: seed})
+	out = append(out, Scope{Inst: "config", Keys: ck, Hashes: cfgHashes, LHashes: cfgLH, Mods: mods, Lasts: lasts, Salt: seed})
+	out = append(out, Scope{Inst: "fed", Keys: fedKeys[:4], Hashes: []Item{{Body: 1}}, LHashes: 1, Mods: mods, Lasts: lasts, Salt: seed})
+	if tier == "thorough" {
+		out[len(out)-1].Keys = fedKeys
+	}
 	return out
 }
 
@@ -1006,7 +1014,7 @@ func main() {
 	insts := []string{"token", "policy", "role", "config", "fed"}
 
 	// DIFF cases
-	for rep := 0; rep < 60*mult; rep++ {
+	for rep := 0; rep < 24*mult; rep++ {
 		for _, inst := range insts {
 			g := &gen{r: rng, inst: inst}
 			n := rng.Intn(9)
@@ -1036,7 +1044,7 @@ func main() {
 	}
 
 	// ROUND cases (real FSM, state store, raft, replication functions)
-	for rep := 0; rep < 50*mult; rep++ {
+	for rep := 0; rep < 30*mult; rep++ {
 		for _, inst := range insts {
 			g := &gen{r: rng, inst: inst}
 			st, rem, last := g.synced(rng.Intn(9))
